@@ -101,7 +101,7 @@ Section ListOps.
     end.
 End ListOps.
 
-Fixpoint upd_nth {X} (i : nat) (f : X -> X) (l : list X) : list X :=
+Fixpoint upd_nth {X} (i : nat) (f : X -> X) (l : list X) {struct l} : list X :=
   match l, i with
   | [], _ => []
   | x :: r, O => f x :: r
